@@ -1,6 +1,9 @@
 from . import props_msg as pm
+from . import props_sent as ps
+from . import props_hist as ph
 
 PROPS = {
-    "C03": pm.C03, "C04": pm.C04, "C09": pm.C09, "C10": pm.C10, "C11": pm.C11, "C12": pm.C12,
-    "C13": pm.C13, "C14": pm.C14, "C15": pm.C15, "C16": pm.C16,
+    "C01": ph.C01, "C02": ps.C02, "C03": pm.C03, "C04": pm.C04, "C05": ph.C05, "C06": ph.C06, "C07": ps.C07,
+    "C08": ps.C08, "C09": pm.C09, "C10": pm.C10, "C11": pm.C11, "C12": pm.C12, "C13": pm.C13, "C14": pm.C14,
+    "C15": pm.C15, "C16": pm.C16, "C17": ph.C17, "C18": ph.C18, "C19": ps.C19, "C20": ph.C20,
 }
